@@ -131,11 +131,19 @@ def patMatches (a : Ast) (p : Pat) (s : Val) : Bool :=
   | .wild => true
   | .lit t => litMatches a t s
   | .guard e v _castTy =>
-    (match s with
-     | .cenum e' m => e' == e && m == v           -- `c == E::V as E`
-     | _ => (match scrutInt s, enumDisc a e v with
-             | some i, some d => i == d           -- `c == E::V as <integer type>` (declared values are 0 … 2^31-1)
-             | _, _ => false))
+    (match a.getConst "c" with
+     | some (.constValue t) =>
+       -- finding K14: the module declares `pub const c: u32`, so `c` in `c if c == E::V as ty` is a *constant pattern* and the `c` of
+       -- the guard is that constant: the arm is taken iff the scrutinee equals the constant and the constant equals the member's value
+       (match parseIntLit t, scrutInt s, enumDisc a e v with
+        | some n, some i, some d => i == (n : Int) && (n : Int) == d
+        | _, _, _ => false)
+     | _ =>
+       (match s with
+        | .cenum e' m => e' == e && m == v           -- `c == E::V as E`
+        | _ => (match scrutInt s, enumDisc a e v with
+                | some i, some d => i == d           -- `c == E::V as <integer type>` (declared values are 0 … 2^31-1)
+                | _, _ => false)))
 
 def selectArm (a : Ast) (s : Val) : List Arm → Option Arm
   | [] => none
